@@ -13,6 +13,8 @@ pub struct C17;
 #[derive(Serialize, Deserialize, Clone, Debug)]
 pub enum C17Case {
     Dest(String),
+    /// several files with these destinations in ONE package
+    Dests(Vec<String>),
     Caps(String),
     /// kind: 2 gzip, 3 zstd, 4 xz, 5 bzip2
     Level { kind: u8, level: i64 },
@@ -26,6 +28,25 @@ pub enum C17Case {
 }
 
 const DEST_TOKENS: [&str; 5] = ["/", ".", "..", "a", "b"];
+
+/// i-th of the 39 paths of depth 1..3 over the components {a, b, m}
+fn small_path(mut i: u64) -> String {
+    const C: [&str; 3] = ["a", "b", "m"];
+    for depth in 1..=3u32 {
+        let n = 3u64.pow(depth);
+        if i < n {
+            let mut s = String::new();
+            for _ in 0..depth {
+                s.push('/');
+                s.push_str(C[(i % 3) as usize]);
+                i /= 3;
+            }
+            return s;
+        }
+        i -= n;
+    }
+    "/a".into()
+}
 
 fn dest_string(mut i: u64, maxlen: u32) -> Option<String> {
     for len in 0..=maxlen {
@@ -53,6 +74,10 @@ fn with_one_file<T>(f: impl FnOnce(&std::path::Path) -> T) -> T {
 }
 
 fn build_and_readback(b: rpm::PackageBuilder, what: &str, expect_files: usize) -> Result<&'static str, (String, String)> {
+    build_and_readback_n(b, what, expect_files, expect_files)
+}
+
+fn build_and_readback_n(b: rpm::PackageBuilder, what: &str, min_files: usize, max_files: usize) -> Result<&'static str, (String, String)> {
     match panics::catch(|| b.build()) {
         Err(p) => Err(("panic".into(), format!("{what}: build(): {p}"))),
         Ok(Err(_)) => Ok("build-err"),
@@ -70,7 +95,7 @@ fn build_and_readback(b: rpm::PackageBuilder, what: &str, expect_files: usize) -
                 Err(p) => return Err(("panic".into(), format!("{what}: parse(): {p}"))),
             };
             let files = iterate(&p).map_err(|(c, d)| (if c.contains("panic") { "panic".to_string() } else { "unreadable-result".to_string() }, format!("{what}: build succeeded but the payload cannot be read: {d}")))?;
-            if files.len() != expect_files || files.iter().any(|f| f.content != b"seventeen bytes!!") {
+            if files.len() < min_files || files.len() > max_files || files.iter().any(|f| f.content != b"seventeen bytes!!") {
                 return Err(("unreadable-result".into(), format!("{what}: build succeeded but the payload does not give the file back")));
             }
             Ok("build-ok")
@@ -86,7 +111,7 @@ impl Property for C17 {
         C17
     }
     fn rule(&self) -> String {
-        format!("complete enumeration of all destination strings of up to 6 (quick) / 7 (thorough) tokens over {:?}, random destinations with other characters; capability strings: all token strings up to 3 tokens of the C19 alphabet; every compressor with levels {:?}; every metadata/file-option setter with arbitrary strings incl. interior NUL, empty and 64 KiB; numeric setters (raw file mode as i32, FileMode variants written out with unmasked permission fields, epoch, scriptlet flags, changelog time, source date, verify flags) with arbitrary integers. Each case runs in a worker process (encoders may abort). Non-trivial = the argument is outside the documented/valid domain (must-be-error destination, rejected caps, out-of-range level, string with NUL or > 4 KiB); distinct by case hash.", DEST_TOKENS, LEVELS)
+        format!("complete enumeration of all destination strings of up to 6 (quick) / 7 (thorough) tokens over {:?}, random destinations with other characters; all ordered pairs of 39 small valid paths and random sets of 2-5 destinations in one package; capability strings: all token strings up to 3 tokens of the C19 alphabet; every compressor with levels {:?}; every metadata/file-option setter with arbitrary strings incl. interior NUL, empty and 64 KiB; numeric setters (raw file mode as i32, FileMode variants written out with unmasked permission fields, epoch, scriptlet flags, changelog time, source date, verify flags) with arbitrary integers. Each case runs in a worker process (encoders may abort). Non-trivial = the argument is outside the documented/valid domain (must-be-error destination, rejected caps, out-of-range level, string with NUL or > 4 KiB); distinct by case hash.", DEST_TOKENS, LEVELS)
     }
     fn assumptions(&self) -> Vec<String> {
         vec![
@@ -95,7 +120,7 @@ impl Property for C17 {
         ]
     }
     fn required_labels(&self, _t: Tier) -> Vec<&'static str> {
-        vec!["numeric-setter", "dest-must-err", "dest-ok", "caps-reject", "caps-accept", "level-in-range", "level-out-of-range", "meta-nul", "build-ok", "build-err-or-with-file-err"]
+        vec!["several-destinations", "numeric-setter", "dest-must-err", "dest-ok", "caps-reject", "caps-accept", "level-in-range", "level-out-of-range", "meta-nul", "build-ok", "build-err-or-with-file-err"]
     }
     fn phases(&self, tier: Tier) -> Vec<Phase<C17Case>> {
         let maxlen = tier.pick(6, 7) as u32;
@@ -103,6 +128,24 @@ impl Property for C17 {
         let ncaps = super::c19::total_strings(3);
         vec![
             Phase::Enumerate { name: "all-destinations", total: total_d, exhaustive: true, gen: Arc::new(move |i| dest_string(i, maxlen).map(C17Case::Dest)) },
+            // two valid destinations in one package: ALL ordered pairs of the 39 paths of depth
+            // 1..3 over {a, b, m} (siblings, nesting, a directory next to a file of a name that
+            // sorts before/after it, the same path twice)
+            Phase::Enumerate {
+                name: "all-destination-pairs",
+                total: 39 * 39,
+                exhaustive: true,
+                gen: Arc::new(|i| if i < 39 * 39 { Some(C17Case::Dests(vec![small_path(i % 39), small_path(i / 39)])) } else { None }),
+            },
+            Phase::Random {
+                name: "destination-sets",
+                cases: tier.pick(3_000, 100_000),
+                strat: Arc::new(|| {
+                    let comp = prop_oneof![4 => proptest::sample::select(vec!["a", "b", "m", "lib", "run.sh", "conf.d", "z", "A", "a.b", "a-b", "0"]).prop_map(|s| s.to_string()), 1 => "[a-z.é ]{1,4}"];
+                    let path = (prop_oneof![3 => Just("/"), 1 => Just("./")], proptest::collection::vec(comp, 1..5)).prop_map(|(p, c)| format!("{p}{}", c.join("/")));
+                    proptest::collection::vec(path, 2..6).prop_map(C17Case::Dests).boxed()
+                }),
+            },
             Phase::Enumerate { name: "caps-strings", total: ncaps, exhaustive: true, gen: Arc::new(|i| super::c19::token_string(i, 3).map(C17Case::Caps)) },
             Phase::Enumerate {
                 name: "levels",
@@ -171,6 +214,25 @@ fn inner(case: &C17Case, o: &mut Outcome) -> Result<(), (String, String)> {
                         Ok(())
                     }
                 }
+            })
+        }
+        C17Case::Dests(ds) => {
+            o.label("several-destinations");
+            with_one_file(|src| {
+                let mut b = base();
+                for d in ds {
+                    b = match panics::catch(move || b.with_file(src, rpm::FileOptions::new(d.clone()))) {
+                        Err(pn) => return Err(("panic".into(), format!("with_file(dest {d:?}) as one of {ds:?}: {pn}"))),
+                        Ok(Err(_)) => {
+                            o.label("build-err-or-with-file-err");
+                            return Ok(());
+                        }
+                        Ok(Ok(b)) => b,
+                    };
+                }
+                // the same path given twice may replace the earlier file or be refused
+                o.label(build_and_readback_n(b, &format!("destinations {ds:?}"), 1, ds.len())?);
+                Ok(())
             })
         }
         C17Case::Caps(c) => {
